@@ -70,6 +70,15 @@ func NewAssembler(unpackTool rio.UnpackFunc) (*Assembler, error) {
 func (a *Assembler) Run(ctx context.Context, targetFs fs.FS, parts []UnpackSpec, fillerDirProps fs.Metadata) (func() error, error) {
 	sort.Sort(UnpackSpecByPath(parts))
 
+	// Two inputs at one path: the one listed later would silently shadow the other,
+	//  and what the tree shows (or whether it is accepted at all) would depend on the listing order.
+	for i := 1; i < len(parts); i++ {
+		if parts[i].Path == parts[i-1].Path {
+			return nil, Errorf(rio.ErrAssemblyInvalid, "invalid inputs config: "+
+				"more than one input at path %q", parts[i].Path)
+		}
+	}
+
 	// Unpacking either wares or more mounts into paths under mounts is seriously illegal.
 	//  It's a massive footgun, entirely strange, and just No.
 	//  Doing it into paths under other wares is fine because it's not *leaving* our zone.
@@ -118,6 +127,9 @@ func (a *Assembler) Run(ctx context.Context, targetFs fs.FS, parts []UnpackSpec,
 					return
 				}
 				res.Path, res.Error = fs.ParseAbsolutePath(ss[1])
+				if res.Error != nil {
+					res.Error = Errorf(rio.ErrAssemblyInvalid, "invalid inputs config: mount source must be an absolute path: %s", res.Error)
+				}
 				return
 			}
 			// Unpack with placement=none to populate cache.
